@@ -6,7 +6,8 @@ import astwire
 import implobs
 from gens.programs import Opts, Gen
 
-THEOREMS = ['leaf_respects', 'straightline_respects', 'loopfree_respects', 'exec_respects_derivation', 'exec_respects_derivation_any_guard', 'exec_respects_composition']
+THEOREMS = ['leaf_respects', 'straightline_respects', 'loopfree_respects', 'exec_respects_derivation', 'exec_respects_derivation_any_guard', 'exec_respects_composition',
+            'reported_bounds_respected', 'reported_bounds_respected_total']
 RULE = ('constant-free generated functions (copies, + and * of variables, if/else, while, do-while, counted for with an '
         'iterator that is used nowhere else) analysed by the real code in strict mode; for EVERY valid choice (all 3^k '
         'tabulated, k<=5) the bound triples are read off the real apply_choice/Bound.calculate, then the Lean '
